@@ -59,14 +59,17 @@ Definition is_seq_no (s : string) : bool :=
 Definition is_version (s : string) : bool := nonempty s && all_chars is_version_char s.
 
 (* fields between colons; no field contains ':' *)
-Fixpoint split_colon_aux (cur : string -> string) (s : string) : list string :=
+Definition is_colon (a : ascii) : bool := Ascii.eqb a ":"%char.
+Fixpoint split_colon (s : string) : list string :=
   match s with
-  | EmptyString => [cur EmptyString]
+  | EmptyString => [EmptyString]
   | String a r =>
-      if Ascii.eqb a ":"%char then cur EmptyString :: split_colon_aux (fun x => x) r
-      else split_colon_aux (fun x => cur (String a x)) r
+      if is_colon a then EmptyString :: split_colon r
+      else match split_colon r with
+           | h :: t => String a h :: t
+           | [] => [String a EmptyString]
+           end
   end.
-Definition split_colon (s : string) : list string := split_colon_aux (fun x => x) s.
 
 (* ^B58{21,22}:2:[^:]+:[0-9.]+$ *)
 Definition is_legacy_schema_id (s : string) : bool :=
@@ -109,4 +112,32 @@ Definition validate_id (k : id_kind) (s : string) : bool :=
   | KSchema => is_legacy_schema_id s
   | KCredDef => is_legacy_cred_def_id s
   | KRevReg => is_legacy_rev_reg_id s
+  end.
+
+(* data_types/schema.rs: AttributeNames::validate (distinct, non-empty, at most MAX_ATTRIBUTES_COUNT) *)
+Definition max_attributes_count : nat := 125.
+Fixpoint nodupb (l : list string) : bool :=
+  match l with
+  | [] => true
+  | x :: r => negb (existsb (String.eqb x) r) && nodupb r
+  end.
+Definition attr_names_valid (l : list string) : bool :=
+  nodupb l && negb (Nat.eqb (List.length l) 0) && Nat.leb (List.length l) max_attributes_count.
+
+(* data_types/schema.rs: Schema::validate = issuer id + attribute names *)
+Definition schema_valid (issuer : string) (attrs : list string) : bool :=
+  validate_id KIssuer issuer && attr_names_valid attrs.
+
+(* data_types/cred_request.rs: CredentialRequest::validate *)
+Definition cred_request_valid (entropy prover_did : option string) (cred_def_id : string) : bool :=
+  validate_id KCredDef cred_def_id &&
+  match entropy with
+  | Some _ => match prover_did with Some _ => false | None => true end
+  | None =>
+      if is_legacy_cred_def_id cred_def_id then
+        match prover_did with
+        | Some d => is_uri d || is_legacy_did d
+        | None => false
+        end
+      else false
   end.
